@@ -12,4 +12,29 @@ CLAIMS = {
     design_ref="DESIGN.md §3 C08",
     note=_corr + "chrono's calendar arithmetic is modelled (toDay/ofDay/weekday) and cross-checked exhaustively on 1970-2200, not verified.",
     technique="Lean 4 proof (omega/induction) over hand-written model + exhaustive differential correspondence"),
+ "C04": dict(
+    text="Lean 4 theorems over the model of DateRoll::roll and its eight search loops, for every calendar (arbitrary "
+         "weekday/holiday/settlement predicates), date, rule and settlement flag: first-eligible characterisation "
+         "(C04_following/_previous), modified rules (C04_modified_*), C04_act, C04_fixed_point, C04_idempotent, "
+         "termination whenever an eligible day is within reach (C04_fuel_*, C04_total). Tied to the code by a "
+         "correspondence run on random admissible calendars and named combinations.",
+    design_ref="DESIGN.md §3 C04",
+    note=_corr + "chrono modelled; loops modelled with fuel (sufficiency proved); times of day not modelled.",
+    technique="Lean 4 proof (induction over the search loops) + differential correspondence"),
+ "C05": dict(
+    text="Lean 4 theorems: add_bus_days counts exactly |n| business days (C05_count_pos/_neg), settlement variant is "
+         "the onward roll (C05_settlement), inverse law (C05_inverse), rejection (C05_rejects), lag rule (C05_lag), "
+         "bus_date_range = filter of the calendar range (C05_range), add_days = shift then roll (C05_add_days), for every "
+         "calendar, date and day count. Correspondence: all 256 i8 counts on each (calendar, start) pair.",
+    design_ref="DESIGN.md §3 C05",
+    note=_corr + "i8 counter modelled as Int (the code's counter stays within i8 for every i8 argument).",
+    technique="Lean 4 proof (induction over the counter loops, counting lemmas) + differential correspondence"),
+ "C06": dict(
+    text="Lean 4 theorems: union business-day and settlement predicates (C06_bus, C06_settle), NamedCal::try_new is "
+         "the union of the looked-up parts, case-insensitively, with errors for >1 pipe and unknown names "
+         "(C06_named_*, C06_error_*), behavioural equality (C06_eq). Correspondence incl. model-free cross-check of "
+         "named calendars against explicit unions of the same tables.",
+    design_ref="DESIGN.md §3 C06",
+    note=_corr + "Unicode to_lowercase modelled as ASCII; built-in tables are inputs of the model (dumped from the code).",
+    technique="Lean 4 proof (list all/any, structural recursion) + differential correspondence"),
 }
